@@ -605,17 +605,14 @@ class PathUnmarshaller(CastUnmarshaller[PathT], tp.Generic[PathT]):
     """Unmarshaller that converts an input to a [`pathlib.PurePath`][] (or subclasses).
 
     Note:
-        Text which merely *looks* like JSON or a Python literal (`"1"`, `"null"`) is a
-        path in its own right, so we only use the decoded value if it is still text.
+        Text which merely *looks* like JSON or a Python literal (`"1"`, `"null"`, `'"a"'`)
+        is a path in its own right, so we never interpret the text, we only decode it.
     """
 
     def __call__(self, val: tp.Any) -> PathT:
-        decoded = serdes.load(val)
-        if isinstance(decoded, self.t):
-            return decoded
-        if not isinstance(decoded, str):
-            decoded = serdes.decode(val)
-        return self.caster(decoded)
+        if isinstance(val, self.t):
+            return val
+        return self.caster(serdes.decode(val))
 
 
 MappingUnmarshaller = CastUnmarshaller[tp.Mapping]
